@@ -269,13 +269,20 @@ class mapper(object):
             raise ValueError("memory location slc is not supported")
         elif loc._is_ptr:
             r = v
-            oldr = self.__map.get(loc, None)
-            if oldr is not None and oldr.size > r.size:
-                r = composer([r, oldr[r.size : oldr.size]])
             if k._is_mem:
                 endian = k.endian
             else:
                 endian = 1
+            oldr = self.__map.get(loc, None)
+            if oldr is not None and oldr.size > r.size:
+                # the entry recorded for loc is wider than this store: keep it wide, but
+                # complete the new value with the bytes that are in memory *now* (oldr itself
+                # may have been partly overwritten through another pointer since):
+                cur = self._Mem_read(loc, oldr.length, endian)
+                if endian == -1:
+                    r = composer([cur[0 : oldr.size - r.size], r])
+                else:
+                    r = composer([r, cur[r.size : oldr.size]])
             self._Mem_write(loc, r, endian)
             if conf.Cas.memtrace or not conf.Cas.noaliasing:
                 # if we assume that aliasing may exists, we
